@@ -254,11 +254,14 @@ def spell_gen(tier):
     def gen():
         n = 0
         for sname, sops in SITUATIONS.items():
-            for where in ("orig", "clone"):
+            for where in ("orig", "clone", "untrusted-again"):
                 for loaded in ("t:import", "t:ctor"):
-                    for sp in SPELLINGS:
-                        c = 0 if where == "orig" else 2
-                        ops = ["isolate", op_ctx(0, False), op_ctx(1, True), op_run("zz = 0;", slot=0)] + ev_ops(loaded)
+                    for sp in SPELLINGS + ['import "%s";' % lib_path(), 'include "%s";' % inc_path(), 'import str("%s");' % lib_path(),
+                                           'zp = "%s"; import zp;' % lib_path(), 'import "" + "%s";' % lib_path()]:
+                        c = 2 if where == "clone" else 0
+                        # "untrusted-again": the host marked the context trusted and took the mark back before any script ran
+                        first = [op_ctx(0, True), "trusted 0 0"] if where == "untrusted-again" else [op_ctx(0, False)]
+                        ops = ["isolate"] + first + [op_ctx(1, True), op_run("zz = 0;", slot=0)] + ev_ops(loaded)
                         for o in sops:
                             ops.append(op_run("g0 = vmod(5);", slot=0) if o == "G" else o)
                         if where == "clone":
@@ -285,6 +288,11 @@ def check_spell(case, res, vs):
     # with the grant the same text must behave as in a trusted context (keeps the family from being vacuous)
     g1, _ = outcome_of(r_tr)
     g2, _ = outcome_of(r_gr)
+    if m["sp"].startswith(("import", "include", "zp =")):
+        # importing by path and including a file are refused in an untrusted context whatever was granted
+        if g2 != "rejected":
+            vs.append(Violation("spelling:path-accepted-after-grant", "%s with vmod granted: %s" % (where, r_gr), case))
+        return vs, g1 == "ok"
     if g1 != g2:
         vs.append(Violation("spelling:granted-differs-from-trusted", "%s: trusted context %s, granted untrusted context %s" % (where, r_tr, r_gr), case))
     return vs, g2 == "ok"
